@@ -67,10 +67,11 @@ func (c19) CaseTimeout(string) int { return 150 }
 
 func (c19) Rule() string {
 	return "Each run = one fresh connection handled by websocket.HandleWithOptions with a scripted ExecutorPool and (a) a scripted TransportClient or (b, 'wire') the repository's websocket.Client over an in-memory net.Conn whose written bytes are parsed back into frames. Script = client word + engine-event schedule (d = one flushed data item, f = Execute returns nil with one buffered result, x = Execute returns an error; an event with slot t is released just before client message t, slot=len(word) after the word; within a slot in operation order) + what a cancelled executor returns (v2: query→ctx error, subscription→nil, as ExecutorV2 does; data: query→its result; err: always the ctx error). A final probe (ping / legacy connection_init) is appended to every run whose connection is still open. The reference machine rejects a trace at its first offending event (one violation per run at most); end-of-run liveness (missing close/ack/pong/terminal/data) is judged only in runs that waited for quiescence. " +
-		"graphql-transport-ws alphabet (16): I Ip(accepted payload) Ir(payload the InitFunc rejects) P Q Sq1 Sq2 Ss1 Ss2 Sx1 Sx2(executor fails at once) C1 C2 U J E. " +
+		"graphql-transport-ws alphabet (16): I Ip(accepted payload) Ir(payload the InitFunc rejects) P Q Sq1 Sq2 Ss1 Ss2 Sx1(executor fails at once) Sh1(a real ExecutorV2 whose engine's WebsocketBeforeStartHook rejects the operation: error(id), id free again) C1 C2 U J E. " +
 		"EXHAUSTIVE, deterministic mode (after every step the driver waits until the handler is back in Read and every operation goroutine is parked, finished or re-polled): (A) quick: every word of length 0..3, thorough: 0..4, each with EVERY schedule of the space {per operation that can have started: query ∈ {ε,f,x}, subscription ∈ all sequences over {d,f,x} of length ≤2 plus d·(any two); every non-decreasing slot placement} (thorough only: capped at 1000 schedules per word, cap hits counted in words_with_schedule_cap_hit) × cancel modes {v2,data,err} when a complete follows a subscribe, else {v2}; (B) quick: every word of length 4 with the fixed family of 6 schedules (none, finish-asap, error-asap, finish-late, error-late, spread), thorough: every word of length 5 with 8 (plus finish-next, error-next); duplicates dropped; cancel modes {v2,data,err} only for 'none' and 'finish-late' of words where a complete follows a subscribe. " +
-		"Legacy graphql-ws alphabet (14): I Ip Ir Tq1 Tq2 Ts1 Ts2 Tx1 St1 St2 T U J E; every schedule for length 0..2 (thorough 0..3, same cap), fixed family for length 3 (thorough 4). " +
+		"Legacy graphql-ws alphabet (15): I Ip Ir Tq1 Tq2 Ts1 Ts2 Tx1 Th1 St1 St2 T U J E; every schedule for length 0..2 (thorough 0..3, same cap), fixed family for length 3 (thorough 4). " +
 		"SAMPLED (seeded): words of length 1..12 over the alphabets extended with id 3, undecodable payloads, pool failures, valid-JSON-of-the-wrong-shape, payload-less ping, server-only types, null …; random schedules (≤4 events per operation); half in racy mode (messages and events back to back, no waiting), a quarter with 0.1–1 ms keep-alives, some with the client vanishing abruptly. Wire runs (transport-ws): half random as above, half of the shape init · 1–3 subscriptions · fatal message or duplicate id, with data released around the fatal message in racy mode. Init time-out cases: no-init words with a 20–40 ms time-out (close 4408 awaited, judged by trace order), init-first words with a 300 ms time-out and a 450 ms linger (4408 must not come), init racing the timer. " +
+		"SLOW WRITE (enumerated, both protocols): (init) · [streaming bystander on the other id] · first(i) · second(i) with first ∈ {query+f, query+x, failing executor}, second ∈ {Sq, Ss, Sx, Sh, complete}, i ∈ {1,2}: the scripted client takes the server's terminal message for i, parks that write call, sends second(i), gives the handler 8 ms, then lets the write return (a re-subscribe after an observed terminal must be accepted). " +
 		"A run is non-trivial when the server wrote at least one message or close frame; distinct = distinct (protocol, word) for the exhaustive kinds, distinct (protocol, script, options) for the sampled ones."
 }
 
@@ -93,7 +94,7 @@ func (c19) RequiredCounters(string) []string {
 		"engine_events_released", "closes",
 		"server_msgs.tws.connection_ack", "server_msgs.tws.pong", "server_msgs.tws.next", "server_msgs.tws.error", "server_msgs.tws.complete",
 		"server_msgs.gws.connection_ack", "server_msgs.gws.data", "server_msgs.gws.error", "server_msgs.gws.complete", "server_msgs.gws.connection_error",
-		"close.4400", "close.4401", "close.4408", "close.4409", "close.4429", "runs_racy", "runs_init_timeout", "runs_wire"}
+		"close.4400", "close.4401", "close.4408", "close.4409", "close.4429", "runs_racy", "runs_init_timeout", "runs_wire", "runs_slow_write", "slow_write_gate_hits"}
 }
 
 // ---------------------------------------------------------------------------------------------
@@ -110,6 +111,7 @@ const (
 	ckGwsRandom
 	ckTimeout
 	ckTwsWire
+	ckSlowWrite
 )
 
 type segment struct {
@@ -132,6 +134,7 @@ func layout(tier string) []segment {
 			{kind: ckGwsRandom, n: 320, runs: 150},
 			{kind: ckTimeout, n: 32},
 			{kind: ckTwsWire, n: 160, runs: 150},
+			{kind: ckSlowWrite, n: 8},
 		}
 	}
 	return []segment{
@@ -143,6 +146,7 @@ func layout(tier string) []segment {
 		{kind: ckGwsRandom, n: 16, runs: 120},
 		{kind: ckTimeout, n: 8},
 		{kind: ckTwsWire, n: 16, runs: 100},
+		{kind: ckSlowWrite, n: 2},
 	}
 }
 
@@ -283,7 +287,7 @@ func (a *acc) absorb(rr *runResult, key string) {
 		}
 		res.Violate(f.kind, fmt.Sprintf("[%s] script %q: %s", rr.p, rr.script, f.msg), f.match, map[string]any{
 			"protocol": rr.p.String(), "script": rr.script, "word": wordString(rr.word), "schedule": scheduleKey(rr.sched),
-			"options":     map[string]any{"wire": rr.opts.wire, "cancel": rr.opts.cancel, "racy": rr.opts.racy, "heartbeat": rr.opts.heartbeat.String(), "init_timeout": rr.opts.initTimeout.String(), "abrupt_eof": rr.opts.abruptEOF, "wait_close": rr.opts.waitClose},
+			"options":     map[string]any{"wire": rr.opts.wire, "slow_write_gate_at": rr.opts.gateAt, "cancel": rr.opts.cancel, "racy": rr.opts.racy, "heartbeat": rr.opts.heartbeat.String(), "init_timeout": rr.opts.initTimeout.String(), "abrupt_eof": rr.opts.abruptEOF, "wait_close": rr.opts.waitClose},
 			"trace_index": f.at, "trace": traceStrings(rr.trace, 80), "operations": rr.ops, "settled": rr.settled,
 		})
 	}
@@ -357,6 +361,8 @@ func (c19) Run(c *fw.Ctx, idx int) fw.Result {
 		runTimeouts(c, a, idx, sub)
 	case ckTwsWire:
 		runWire(c, a, seg, idx)
+	case ckSlowWrite:
+		runSlowWrite(c, a, seg, sub)
 	default:
 		res.Inconclusive = "layout: index outside the case list"
 		return res
@@ -580,6 +586,92 @@ func runWire(c *fw.Ctx, a *acc, seg segment, idx int) {
 		a.res.Count("runs_wire", 1)
 		rr := runScript(protoTWS, w, sc.sorted(), o)
 		a.absorb(rr, fw.HashKey("wire", rr.script, o.cancel, o.racy, o.heartbeat > 0))
+	}
+}
+
+// runSlowWrite enumerates the "slow write" scripts: an operation ends by itself (query result, query
+// error, executor failing at once); the transport client parks the server's write call of its terminal
+// message after having taken the message, and at that moment the client sends the next message for
+// the same id (a re-subscribe of every kind, or a complete). A client may use an id again as soon as
+// it has seen the terminal message, so the re-subscribe has to be accepted. Both protocols, ids 1
+// and 2, with and without a streaming operation on another id; thorough adds the cancel modes.
+func runSlowWrite(c *fw.Ctx, a *acc, seg segment, part int) {
+	type first struct {
+		kind symKind
+		ev   byte // 0: none (the executor fails at once)
+	}
+	firsts := []first{{kSubQuery, 'f'}, {kSubQuery, 'x'}, {kSubExecErr, 0}}
+	seconds := []symKind{kSubQuery, kSubSub, kSubExecErr, kSubHookReject, kComplete}
+	modes := []string{"v2"}
+	if c.Tier == fw.Thorough {
+		modes = []string{"v2", "data", "err"}
+	}
+	letter := func(p proto, k symKind, id string) sym {
+		alpha := append(append([]sym(nil), twsAlphabet...), twsExtra...)
+		if p == protoGWS {
+			alpha = append(append([]sym(nil), gwsAlphabet...), gwsExtra...)
+		}
+		for _, s := range alpha {
+			if s.kind == k && s.id == id && s.variant == 0 {
+				return s
+			}
+		}
+		return sym{name: fmt.Sprintf("k%d_%s", k, id), kind: k, id: id}
+	}
+	n := 0
+	for _, p := range []proto{protoTWS, protoGWS} {
+		prefixes := [][]sym{{{name: "I", kind: kInit}}}
+		if p == protoGWS {
+			prefixes = append(prefixes, []sym{})
+		}
+		for _, pre := range prefixes {
+			for _, id := range []string{"1", "2"} {
+				other := "2"
+				if id == "2" {
+					other = "1"
+				}
+				for _, bystander := range []bool{false, true} {
+					for _, f := range firsts {
+						for _, sk := range seconds {
+							for _, cm := range modes {
+								mine := n%seg.n == part
+								n++
+								if !mine {
+									continue
+								}
+								w := append([]sym(nil), pre...)
+								var sc schedule
+								if bystander {
+									w = append(w, letter(p, kSubSub, other))
+									sc = append(sc, schedEv{op: len(w) - 1, kind: 'd', slot: len(w)})
+								}
+								w = append(w, letter(p, f.kind, id))
+								fi := len(w) - 1
+								w = append(w, letter(p, sk, id))
+								gate := len(w) - 1
+								if gate == 0 {
+									continue
+								}
+								if f.ev != 0 {
+									sc = append(sc, schedEv{op: fi, kind: f.ev, slot: gate})
+								}
+								if w[gate].gated() {
+									sc = append(sc, schedEv{op: gate, kind: 'f', slot: len(w)})
+								}
+								if bystander {
+									sc = append(sc, schedEv{op: fi - 1, kind: 'd', slot: len(w)})
+								}
+								a.words[pshort(p)+":"+wordString(w)+"@gate"] = true
+								rr := runScript(p, w, sc.sorted(), runOpts{cancel: cm, gateAt: gate})
+								a.res.Count("runs_slow_write", 1)
+								a.res.Count("slow_write_gate_hits", int64(rr.gateHits))
+								a.absorb(rr, fw.HashKey("slow-write", p.String(), rr.script, gate, cm))
+							}
+						}
+					}
+				}
+			}
+		}
 	}
 }
 
